@@ -298,7 +298,8 @@ def gz_oracle(prop, toks_val):
                     exact = False
                     failed = True
             elif code == 2:
-                nflush += 1
+                # BodyWriter::flush runs the encoder's flush twice (fix F10): up to two short frames
+                nflush += 2
                 if r == [2]:
                     flushed = True
                 else:
